@@ -361,6 +361,67 @@ pub fn run(cfg: &Cfg, rep: &mut Report) {
     }
   }
 
+  // two subscriptions made from clones of ONE operator value over a hot source: the first is
+  // unsubscribed, the source emits, the second is unsubscribed, the source emits again. Each
+  // probe is silent from its own unsubscribe() on, and the second one was still served in
+  // between (an unsubscription must not reach into, nor be disabled by, a sibling subscription)
+  if cfg.shard == 0 && cfg.only_case.as_deref().map_or(true, |c| c.starts_with("siblings:")) {
+    use rxrust::ops::throttle::ThrottleEdge;
+    use rxrust::prelude::*;
+    macro_rules! siblings {
+      ($name:expr, $subj:ident, $pool:ident, $build:expr) => {{
+        let id = format!("siblings:{}", $name);
+        rep.evaluations += 1;
+        rep.count("sibling_subscriptions_of_one_operator_value", 1);
+        crate::vtime::reset();
+        let mut $pool = futures::executor::LocalPool::new();
+        let log = Log::new();
+        let mut $subj = Subject::<'static, V, E>::default();
+        let o = $build;
+        let s1 = o.clone().actual_subscribe(Probe::new(1, &log));
+        let s2 = o.clone().actual_subscribe(Probe::new(2, &log));
+        drop(o);
+        let drive = |pool: &mut futures::executor::LocalPool| {
+          pool.run_until_stalled();
+          crate::vtime::advance_to(crate::vtime::now() + 5_000_000);
+          pool.run_until_stalled();
+        };
+        $subj.next(V::I(1));
+        drive(&mut $pool);
+        s1.unsubscribe();
+        let cut1 = log.mark(0, "unsub_ret", 1);
+        $subj.next(V::I(2));
+        drive(&mut $pool);
+        s2.unsubscribe();
+        let cut2 = log.mark(0, "unsub_ret", 2);
+        $subj.next(V::I(3));
+        $subj.clone().complete();
+        drive(&mut $pool);
+        let evs = log.evs();
+        rep.events += evs.len() as u64;
+        let late1 = evs.iter().find(|e| e.id == 1 && e.seq > cut1 && matches!(e.k, K::N(_)));
+        let late2 = evs.iter().find(|e| e.id == 2 && e.seq > cut2 && matches!(e.k, K::N(_)));
+        let served2 = evs.iter().any(|e| e.id == 2 && e.seq > cut1 && e.seq < cut2 && matches!(&e.k, K::N(N::Next(_))));
+        if let Some(ev) = late1.or(late2) {
+          rep.violation("delivery_after_unsubscribe", &format!("{}[sibling subscriptions of one operator value]", $name), &id, json!({"late_event": format!("probe {} received {:?}", ev.id, ev.k)}));
+        } else if !served2 {
+          rep.violation("sibling_cut_off", &format!("{}[sibling subscriptions of one operator value]", $name), &id, json!({"why": "the second subscription received nothing for item 2 although only the first one had been unsubscribed"}));
+        } else {
+          rep.nontrivial.insert(hash64(&id));
+        }
+      }};
+    }
+    siblings!("map", subj, pool, subj.clone().map(|v: V| v));
+    siblings!("finalize", subj, pool, subj.clone().finalize(|| {}));
+    siblings!("take", subj, pool, subj.clone().take(5));
+    siblings!("scan", subj, pool, subj.clone().scan(|a: V, _b: V| a));
+    siblings!("observe_on", subj, pool, subj.clone().observe_on(pool.spawner()));
+    siblings!("delay", subj, pool, subj.clone().delay(Duration::from_millis(1), pool.spawner()));
+    siblings!("debounce", subj, pool, subj.clone().debounce(Duration::from_millis(1), pool.spawner()));
+    siblings!("throttle", subj, pool, subj.clone().throttle(|_: &V| Duration::from_millis(1), ThrottleEdge::all(), pool.spawner()));
+    siblings!("buffer_with_time", subj, pool, subj.clone().buffer_with_time(Duration::from_millis(1), pool.spawner()).map(V::L));
+  }
+
   // thread part: an emitting thread races the unsubscribing thread (baton scheduler)
   let n = cfg.n(12_000, 600_000);
   let fams = [0usize, 2, 3, 4, 5, 6, 7, 8, 9, 11, 12, 13, 15, 16, 17, 18, 20, 23, 24, 25];
